@@ -401,6 +401,11 @@ func g7NewName(r *Repo, rep *Report) {
 	}
 	rid, ok := ast.Unparen(rets[0].Results[0]).(*ast.Ident)
 	if !ok {
+		if _, isCall := ast.Unparen(rets[0].Results[0]).(*ast.CallExpr); isCall {
+			rep.fail(Finding{Rule: "G7", Key: "G7|newName|returns-transformed-name", Where: []string{r.pos(rets[0].Pos())},
+				Msg: "newName returns " + exprStr(rets[0].Results[0]) + ", a transformation of the name it tested against the registered and reserved names: the name handed out was never tested, so two helpers can get the same name (the second is not generated and its call sites call the first) or a helper can take a name the user calls"})
+			return
+		}
 		rep.fail(Finding{Rule: "G7", Key: "G7|newName|shape", Kind: "undecided", Where: []string{r.pos(rets[0].Pos())}, Msg: "newName does not return a variable"})
 		return
 	}
